@@ -168,3 +168,10 @@ PLANS = {
                      }},
     },
 }
+
+# second oracle over dumped event logs (DESIGN §3.12): thorough tier of C01 and C02, quick tier of C02
+_OFF = {"shards": 16, "count": 400, "budget_s": 20, "watchdog_s": 600}
+for _p, _tiers in (("C01", ("thorough",)), ("C02", ("quick", "thorough"))):
+    for _t in _tiers:
+        PLANS[_p][_t]["stages"] = ["offline"]
+        PLANS[_p][_t]["stage_plans"] = {"offline": dict(_OFF, count=150 if _t == "quick" else 400, budget_s=6 if _t == "quick" else 20)}
